@@ -4,6 +4,8 @@
 -/
 import PandoraModel.Lemmas.C12Frame
 
+set_option linter.unusedSimpArgs false
+
 namespace Pandora.C12
 open Pandora Pandora.Confidence
 
